@@ -1,0 +1,459 @@
+//! Association-list models of `std::collections::{HashMap, HashSet}`.
+//!
+//! Same observable map/set semantics for the API subset used by the crate;
+//! iteration order is insertion order (the real containers iterate in an
+//! arbitrary, hash-dependent order).
+
+use std::borrow::Borrow;
+use std::fmt::Debug;
+
+#[derive(Clone)]
+pub struct HashMap<K, V> {
+    entries: Vec<(K, V)>,
+}
+
+impl<K, V> Default for HashMap<K, V> {
+    fn default() -> Self {
+        Self {
+            entries: Vec::new(),
+        }
+    }
+}
+
+impl<K: Debug, V: Debug> Debug for HashMap<K, V> {
+    fn fmt(&self, f: &mut std::fmt::Formatter<'_>) -> std::fmt::Result {
+        f.debug_map()
+            .entries(self.entries.iter().map(|(k, v)| (k, v)))
+            .finish()
+    }
+}
+
+impl<K: Eq, V: PartialEq> PartialEq for HashMap<K, V> {
+    fn eq(&self, other: &Self) -> bool {
+        self.entries.len() == other.entries.len()
+            && self
+                .entries
+                .iter()
+                .all(|(k, v)| other.get(k).is_some_and(|w| v == w))
+    }
+}
+
+impl<K: Eq, V: Eq> Eq for HashMap<K, V> {}
+
+impl<K, V> HashMap<K, V> {
+    #[must_use]
+    pub fn new() -> Self {
+        Self::default()
+    }
+
+    #[must_use]
+    pub fn with_capacity(capacity: usize) -> Self {
+        Self {
+            entries: Vec::with_capacity(capacity),
+        }
+    }
+
+    pub fn len(&self) -> usize {
+        self.entries.len()
+    }
+
+    pub fn is_empty(&self) -> bool {
+        self.entries.is_empty()
+    }
+
+    pub fn keys(&self) -> impl Iterator<Item = &K> {
+        self.entries.iter().map(|(k, _)| k)
+    }
+
+    pub fn values(&self) -> impl Iterator<Item = &V> {
+        self.entries.iter().map(|(_, v)| v)
+    }
+
+    pub fn values_mut(&mut self) -> impl Iterator<Item = &mut V> {
+        self.entries.iter_mut().map(|(_, v)| v)
+    }
+
+    pub fn iter(&self) -> Iter<'_, K, V> {
+        Iter(self.entries.iter())
+    }
+
+    pub fn iter_mut(&mut self) -> impl Iterator<Item = (&K, &mut V)> {
+        self.entries.iter_mut().map(|(k, v)| (&*k, v))
+    }
+
+    pub fn into_keys(self) -> impl Iterator<Item = K> {
+        self.entries.into_iter().map(|(k, _)| k)
+    }
+
+    pub fn clear(&mut self) {
+        self.entries.clear();
+    }
+}
+
+impl<K: Eq, V> HashMap<K, V> {
+    fn position<Q>(&self, key: &Q) -> Option<usize>
+    where
+        K: Borrow<Q>,
+        Q: Eq + ?Sized,
+    {
+        self.entries.iter().position(|(k, _)| k.borrow() == key)
+    }
+
+    pub fn get<Q>(&self, key: &Q) -> Option<&V>
+    where
+        K: Borrow<Q>,
+        Q: Eq + ?Sized,
+    {
+        self.position(key).map(|i| &self.entries[i].1)
+    }
+
+    pub fn get_mut<Q>(&mut self, key: &Q) -> Option<&mut V>
+    where
+        K: Borrow<Q>,
+        Q: Eq + ?Sized,
+    {
+        match self.position(key) {
+            Some(i) => Some(&mut self.entries[i].1),
+            None => None,
+        }
+    }
+
+    pub fn contains_key<Q>(&self, key: &Q) -> bool
+    where
+        K: Borrow<Q>,
+        Q: Eq + ?Sized,
+    {
+        self.position(key).is_some()
+    }
+
+    pub fn insert(&mut self, key: K, value: V) -> Option<V> {
+        match self.position(&key) {
+            Some(i) => Some(std::mem::replace(&mut self.entries[i].1, value)),
+            None => {
+                self.entries.push((key, value));
+                None
+            }
+        }
+    }
+
+    pub fn remove<Q>(&mut self, key: &Q) -> Option<V>
+    where
+        K: Borrow<Q>,
+        Q: Eq + ?Sized,
+    {
+        self.position(key).map(|i| self.entries.remove(i).1)
+    }
+
+    pub fn retain(&mut self, mut f: impl FnMut(&K, &mut V) -> bool) {
+        self.entries.retain_mut(|(k, v)| f(k, v));
+    }
+
+    pub fn entry(&mut self, key: K) -> hash_map::Entry<'_, K, V> {
+        match self.position(&key) {
+            Some(index) => hash_map::Entry::Occupied(hash_map::OccupiedEntry { map: self, index }),
+            None => hash_map::Entry::Vacant(hash_map::VacantEntry { map: self, key }),
+        }
+    }
+}
+
+pub struct Iter<'a, K, V>(std::slice::Iter<'a, (K, V)>);
+
+impl<'a, K, V> Iterator for Iter<'a, K, V> {
+    type Item = (&'a K, &'a V);
+
+    fn next(&mut self) -> Option<Self::Item> {
+        self.0.next().map(|(k, v)| (k, v))
+    }
+
+    fn size_hint(&self) -> (usize, Option<usize>) {
+        self.0.size_hint()
+    }
+}
+
+impl<'a, K, V> IntoIterator for &'a HashMap<K, V> {
+    type IntoIter = Iter<'a, K, V>;
+    type Item = (&'a K, &'a V);
+
+    fn into_iter(self) -> Self::IntoIter {
+        self.iter()
+    }
+}
+
+impl<K, V> IntoIterator for HashMap<K, V> {
+    type IntoIter = std::vec::IntoIter<(K, V)>;
+    type Item = (K, V);
+
+    fn into_iter(self) -> Self::IntoIter {
+        self.entries.into_iter()
+    }
+}
+
+impl<K: Eq, V> FromIterator<(K, V)> for HashMap<K, V> {
+    fn from_iter<I: IntoIterator<Item = (K, V)>>(iter: I) -> Self {
+        let mut map = Self::new();
+        for (k, v) in iter {
+            map.insert(k, v);
+        }
+        map
+    }
+}
+
+impl<K: Eq, V> Extend<(K, V)> for HashMap<K, V> {
+    fn extend<I: IntoIterator<Item = (K, V)>>(&mut self, iter: I) {
+        for (k, v) in iter {
+            self.insert(k, v);
+        }
+    }
+}
+
+impl<K: Eq, V, const N: usize> From<[(K, V); N]> for HashMap<K, V> {
+    fn from(value: [(K, V); N]) -> Self {
+        value.into_iter().collect()
+    }
+}
+
+impl<K: serde::Serialize, V: serde::Serialize> serde::Serialize for HashMap<K, V> {
+    fn serialize<S: serde::Serializer>(&self, serializer: S) -> Result<S::Ok, S::Error> {
+        serializer.collect_map(self.entries.iter().map(|(k, v)| (k, v)))
+    }
+}
+
+impl<'de, K: Eq + serde::Deserialize<'de>, V: serde::Deserialize<'de>> serde::Deserialize<'de>
+    for HashMap<K, V>
+{
+    fn deserialize<D: serde::Deserializer<'de>>(deserializer: D) -> Result<Self, D::Error> {
+        struct MapVisitor<K, V>(std::marker::PhantomData<(K, V)>);
+        impl<'de, K: Eq + serde::Deserialize<'de>, V: serde::Deserialize<'de>>
+            serde::de::Visitor<'de> for MapVisitor<K, V>
+        {
+            type Value = HashMap<K, V>;
+
+            fn expecting(&self, f: &mut std::fmt::Formatter) -> std::fmt::Result {
+                f.write_str("a map")
+            }
+
+            fn visit_map<M: serde::de::MapAccess<'de>>(
+                self,
+                mut access: M,
+            ) -> Result<Self::Value, M::Error> {
+                let mut map = HashMap::new();
+                while let Some((k, v)) = access.next_entry()? {
+                    map.insert(k, v);
+                }
+                Ok(map)
+            }
+        }
+        deserializer.deserialize_map(MapVisitor(std::marker::PhantomData))
+    }
+}
+
+pub mod hash_map {
+    use super::HashMap;
+
+    pub enum Entry<'a, K, V> {
+        Occupied(OccupiedEntry<'a, K, V>),
+        Vacant(VacantEntry<'a, K, V>),
+    }
+
+    pub struct OccupiedEntry<'a, K, V> {
+        pub(super) map: &'a mut HashMap<K, V>,
+        pub(super) index: usize,
+    }
+
+    pub struct VacantEntry<'a, K, V> {
+        pub(super) map: &'a mut HashMap<K, V>,
+        pub(super) key: K,
+    }
+
+    impl<'a, K, V> OccupiedEntry<'a, K, V> {
+        pub fn key(&self) -> &K {
+            &self.map.entries[self.index].0
+        }
+
+        pub fn get(&self) -> &V {
+            &self.map.entries[self.index].1
+        }
+
+        pub fn get_mut(&mut self) -> &mut V {
+            &mut self.map.entries[self.index].1
+        }
+
+        pub fn into_mut(self) -> &'a mut V {
+            &mut self.map.entries[self.index].1
+        }
+
+        pub fn insert(&mut self, value: V) -> V {
+            std::mem::replace(&mut self.map.entries[self.index].1, value)
+        }
+
+        pub fn remove(self) -> V {
+            self.map.entries.remove(self.index).1
+        }
+    }
+
+    impl<'a, K, V> VacantEntry<'a, K, V> {
+        pub fn key(&self) -> &K {
+            &self.key
+        }
+
+        pub fn insert(self, value: V) -> &'a mut V {
+            self.map.entries.push((self.key, value));
+            let last = self.map.entries.len() - 1;
+            &mut self.map.entries[last].1
+        }
+    }
+
+    impl<'a, K, V> Entry<'a, K, V> {
+        pub fn or_insert(self, default: V) -> &'a mut V {
+            match self {
+                Self::Occupied(e) => e.into_mut(),
+                Self::Vacant(e) => e.insert(default),
+            }
+        }
+
+        pub fn key(&self) -> &K {
+            match self {
+                Self::Occupied(e) => e.key(),
+                Self::Vacant(e) => e.key(),
+            }
+        }
+    }
+}
+
+#[derive(Clone)]
+pub struct HashSet<T> {
+    items: Vec<T>,
+}
+
+impl<T> Default for HashSet<T> {
+    fn default() -> Self {
+        Self { items: Vec::new() }
+    }
+}
+
+impl<T: Debug> Debug for HashSet<T> {
+    fn fmt(&self, f: &mut std::fmt::Formatter<'_>) -> std::fmt::Result {
+        f.debug_set().entries(self.items.iter()).finish()
+    }
+}
+
+impl<T: Eq> PartialEq for HashSet<T> {
+    fn eq(&self, other: &Self) -> bool {
+        self.items.len() == other.items.len() && self.items.iter().all(|t| other.contains(t))
+    }
+}
+
+impl<T: Eq> Eq for HashSet<T> {}
+
+impl<T> HashSet<T> {
+    #[must_use]
+    pub fn new() -> Self {
+        Self::default()
+    }
+
+    #[must_use]
+    pub fn with_capacity(capacity: usize) -> Self {
+        Self {
+            items: Vec::with_capacity(capacity),
+        }
+    }
+
+    pub fn len(&self) -> usize {
+        self.items.len()
+    }
+
+    pub fn is_empty(&self) -> bool {
+        self.items.is_empty()
+    }
+
+    pub fn iter(&self) -> std::slice::Iter<'_, T> {
+        self.items.iter()
+    }
+
+    pub fn clear(&mut self) {
+        self.items.clear();
+    }
+}
+
+impl<T: Eq> HashSet<T> {
+    pub fn contains<Q>(&self, value: &Q) -> bool
+    where
+        T: Borrow<Q>,
+        Q: Eq + ?Sized,
+    {
+        self.items.iter().any(|t| t.borrow() == value)
+    }
+
+    pub fn insert(&mut self, value: T) -> bool {
+        if self.contains(&value) {
+            false
+        } else {
+            self.items.push(value);
+            true
+        }
+    }
+
+    pub fn remove<Q>(&mut self, value: &Q) -> bool
+    where
+        T: Borrow<Q>,
+        Q: Eq + ?Sized,
+    {
+        match self.items.iter().position(|t| t.borrow() == value) {
+            Some(i) => {
+                self.items.remove(i);
+                true
+            }
+            None => false,
+        }
+    }
+
+    pub fn retain(&mut self, f: impl FnMut(&T) -> bool) {
+        self.items.retain(f);
+    }
+
+    pub fn is_subset(&self, other: &Self) -> bool {
+        self.items.iter().all(|t| other.contains(t))
+    }
+}
+
+impl<'a, T> IntoIterator for &'a HashSet<T> {
+    type IntoIter = std::slice::Iter<'a, T>;
+    type Item = &'a T;
+
+    fn into_iter(self) -> Self::IntoIter {
+        self.items.iter()
+    }
+}
+
+impl<T> IntoIterator for HashSet<T> {
+    type IntoIter = std::vec::IntoIter<T>;
+    type Item = T;
+
+    fn into_iter(self) -> Self::IntoIter {
+        self.items.into_iter()
+    }
+}
+
+impl<T: Eq> FromIterator<T> for HashSet<T> {
+    fn from_iter<I: IntoIterator<Item = T>>(iter: I) -> Self {
+        let mut set = Self::new();
+        for t in iter {
+            set.insert(t);
+        }
+        set
+    }
+}
+
+impl<T: Eq> Extend<T> for HashSet<T> {
+    fn extend<I: IntoIterator<Item = T>>(&mut self, iter: I) {
+        for t in iter {
+            self.insert(t);
+        }
+    }
+}
+
+impl<T: Eq, const N: usize> From<[T; N]> for HashSet<T> {
+    fn from(value: [T; N]) -> Self {
+        value.into_iter().collect()
+    }
+}
